@@ -161,6 +161,17 @@ Definition guard_present (gs : list (string * string * string * list string)) (r
   existsb (fun g => let '(m', f', c', hs) := g in String.eqb m m' && String.eqb f f' && String.eqb callee c' && mem h hs) gs
   && forallb (fun g => let '(m', f', c', hs) := g in
                        negb (String.eqb m m' && String.eqb f f' && String.eqb callee c') || mem h hs) gs.
+(* handlers whose job is to SWALLOW: they must not re-raise (whatever the log level or any other observer says) *)
+Definition swallowing_handlers : list (string * string * string) :=
+  [ ("display.py", "StateData.__getitem__", "Exception");
+    ("step/solver/step_solver.py", "StepSolver.estimate_rcond", "LinearSolverError");
+    ("step/step_control.py", "StepController.compute_step", "StepSolverError");
+    ("step/step_control.py", "StepController.compute_step", "EvalError") ].
+Definition handler_swallows (hb : list (string * string * string * list string)) (r : string * string * string) : bool :=
+  let '(m, f, h) := r in
+  existsb (fun g => let '(m', f', h', _) := g in String.eqb m m' && String.eqb f f' && String.eqb h h') hb
+  && forallb (fun g => let '(m', f', h', effs) := g in
+                       negb (String.eqb m m' && String.eqb f f' && String.eqb h h') || negb (mem "raise" effs)) hb.
 (* every factorisation / back-solve issued by a step solver sits under a LinearSolverError handler *)
 Definition linear_call_guarded (g : string * string * string * list string) : bool :=
   let '(m, f, callee, hs) := g in
@@ -168,12 +179,16 @@ Definition linear_call_guarded (g : string * string * string * list string) : bo
   then mem "LinearSolverError" hs else true.
 
 (* ------------------------------------------------------------------ C09: observer-controlled branches *)
+(* what may run EAGERLY under such a branch: stores into the observer's own state and calls of the display / log /
+   path machinery.  Problem evaluations (iterate.obj_nonlin, iterate.aug_lag, func.value_at, ...) are allowed only
+   DEFERRED (inside a lambda / nested def stored into the display state): they then run inside
+   StateData.__getitem__, whose handler swallows every exception (swallowing_handlers below). *)
 Definition observer_effect_prefixes : list string :=
-  [ "store state"; "store path"; "store rcond"; "store self.res_func"; "store self.display"; "store func"; "store complete_path";
-    "store model_times"; "call StateData"; "call logger."; "call display.row"; "call inner_display"; "call ImplicitFunc";
-    "call np.linalg.norm"; "call func.value_at"; "call path.append"; "call path_times.append"; "call np.vstack"; "call np.hstack";
-    "call result._set_path"; "call self.estimate_rcond"; "call iterate.obj_nonlin"; "call iterate.cons_nonlin";
-    "call iterate.aug_lag"; "call iterate.obj"; "call cols.append"; "call AttrColumn"; "call RCondFormatter"; "call StateAttr"; "expr " ].
+  [ "store state"; "store path"; "store rcond"; "store self.res_func"; "store self.display"; "store complete_path";
+    "store model_times"; "call StateData"; "call logger."; "call display.row"; "call inner_display";
+    "call path.append"; "call path_times.append"; "call np.vstack"; "call np.hstack";
+    "call result._set_path"; "call self.estimate_rcond"; "call cols.append"; "call AttrColumn"; "call RCondFormatter";
+    "call StateAttr"; "expr "; "deferred " ].
 Definition observer_effect_ok (f : string) (e : string) : bool :=
   any_prefix observer_effect_prefixes e
   || (String.eqb e "return" && mem f ["StepController.display_step"; "StepController.compute_step"]).
